@@ -543,6 +543,18 @@ func c10ElementTyping0(r *Run, li *c10LaxInfo) *c10Elem {
 			tDec[c.v] = true
 		}
 	}
+	uDec := map[int64]bool{}
+	for _, a := range accept {
+		for k, c := range a {
+			if strings.HasPrefix(k, "τ:") && c.fixed {
+				uDec[c.v] = true
+			}
+		}
+	}
+	// (the classes of Go types that can be elements: raw value, OID, bit string, time, enumerated, integer,
+	// boolean, struct / slice, octet string, SET, string — no class may drop out of the comparison unnoticed)
+	r.Floor("type classes with which the fork's element decoding is reached", len(tDec), 11)
+	r.Floor("type classes with which encoding/asn1's element decoding is reached", len(uDec), 11)
 	notIface, whyIface := c10ClassifierRejectsInterfaces(r, memo, s.holder, pk.Types, &tuples, tDec, ifaceKind)
 	r.Check("element:not-interface", notIface, r.FnPos(s.dec), whyIface)
 	// ---- (typed)
